@@ -36,4 +36,27 @@ PROPS = {
                 "line recomputed bit for bit by the extracted model with Gallina BLAKE3; ground truth of each accepted proof checked",
         "assumptions": ["hash values are 32 bytes (Rust types); theorems hold up to an explicit hash collision / zero-digest preimage event"],
     },
+    "C15": {
+        "coq_deps": ["ManagerFacts"],
+        "steps": [
+            {"sub": "mgr", "quick": [0], "thorough": [1]},
+        ],
+        "rule": "random operation sequences (set, batch_set, get, batch_get, the five user-state flags, user data, bulk versions, "
+                "tombstone, begin/commit/rollback, flush) on the real StorageManager over a database wrapper that rejects chosen calls; "
+                "three regimes (deterministic cache with database-operation counts, no cache, 2 ms lifetimes with memory limit and real "
+                "sleeps); well-formed and (1/7) malformed data; every return value and the final database recomputed by the extracted "
+                "model; ground truth of every read = the same read on a committed twin",
+        "assumptions": ["per user, versions increase with epochs and rewriting a (user, epoch) record keeps its version (hypothesis rewrite_keeps_version)",
+                        "the in-memory database's query functions are modelled by Manager.find_item (validated by the correspondence)"],
+    },
+    "C16": {
+        "coq_deps": ["ManagerFacts"],
+        "steps": [
+            {"sub": "mgr", "quick": [0], "thorough": [1]},
+        ],
+        "rule": "as C15; regime 0 ties the fill / write-through / flush logic itself (the number of database operations of every call must "
+                "equal the model's), regime 2 (2 ms lifetimes, 300-1800 byte limits, real sleeps, cleaning toggled by transactions) must "
+                "return what the cache-less model returns",
+        "assumptions": ["each storage operation is atomic (DashMap / RwLock); concurrent read-fill racing a write-through is outside this model (see DESIGN.md K3)"],
+    },
 }
